@@ -85,7 +85,7 @@ def gen_enum(rng, idx, n_enabled, placement, generics, kinds, robust=False):
         if tricky and vi < len(tricky):
             ident = tricky[vi]
         variants.append(dict(ident=ident, kind=kind, tys=tys, disabled=dis, extra=extra,
-                             plain=False,
+                             plain=False, key="%s-%d" % (name, vi),
                              noise=[] if len(mask) > 300 else noise.variant_noise(rng, 0.25, True, extra)))
     # every type parameter must be used by some variant (rustc E0392)
     want = {"none": [], "T": ["T"], "TW": ["T"], "TK": ["T"], "TU": ["T", "U"]}[generics]
@@ -136,7 +136,7 @@ def render_variant(v):
     rr = _r.Random(v["ident"] + str(len(v.get("noise", []))))
     if not v.get("plain"):
         lines = noise.fold_disabled(rr, lines)
-    for l in noise.trailing_commas(rr, noise.place(rr, lines, v.get("noise", []))):
+    for l in noise.respell("c05-" + v.get("key", v["ident"]), noise.trailing_commas(rr, noise.place(rr, lines, v.get("noise", [])))):
         attrs += "    %s\n" % l
     if v["kind"] == "unit":
         body = v["ident"] + (" = %d" % v["discr"] if v.get("discr") is not None else "")
